@@ -8,7 +8,7 @@
 //! pool object and the identity of every shared object are compared.
 
 use crate::ctx::{Ctx, Outcome, Tier};
-use crate::props::script::{run_script, script_text_of, RunInfo};
+use crate::props::script::{minimise, remember_failure, run_script, script_text_of, skip_shrink_candidate, RunInfo};
 use crate::props::Prop;
 use mwv_core::choice::{unhex, Choices};
 use mwv_core::store::lv;
@@ -86,8 +86,23 @@ fn run_steps(ctx: &Ctx, steps: &[lv::Step], stats: Option<&mwv_core::store::GenS
         ctx.class_n("gen:damped-known-trigger", g.damped as u64);
     }
     ctx.sample(|| json!({"script": text}));
+    // Every case is journaled before it runs, so that an abort or a hang of the worker is
+    // attributed to its input (and skipped when the shard is restarted). The signature of such an
+    // outcome names the step with a huge integer argument if there is one (the usual way to make
+    // a procedure allocate without bound), otherwise just the sequence.
+    if !ctx.strict && ctx.counting() {
+        let huge = steps.iter().position(|s| s.args.iter().any(|a| matches!(a, lv::Arg::Int(i) if i.abs() >= (1 << 31))));
+        let hang_sig = match huge {
+            Some(i) => format!("C14|{}|{}", script.steps[i].op, script.steps[i].class),
+            None => "C14|seq".to_string(),
+        };
+        if !ctx.journal(&json!({"kind": "seq", "payload": {"script": text, "hang_sig": hang_sig}})) {
+            ctx.discard("skipped: aborted or hung in an earlier incarnation of this shard");
+            return Outcome::Discard;
+        }
+    }
     let mut info = RunInfo { executed: 0, cut_short: false, tolerated: 0 };
-    let out = run_script(ctx, "C14", "seq", &script, &text, &mut info);
+    let out = run_script(ctx, "C14", "seq", &script, &text, &mut info, true);
     if info.cut_short {
         ctx.class("seq:cut-short-after-known-finding");
     }
@@ -98,14 +113,39 @@ fn run_steps(ctx: &Ctx, steps: &[lv::Step], stats: Option<&mwv_core::store::GenS
     out
 }
 
+/// Failure signature of explicit steps, without touching the statistics (used by the minimiser).
+fn failure_of(ctx: &Ctx, steps: &[lv::Step]) -> Option<(String, String)> {
+    let script = lv::build_script(steps).ok()?;
+    let text = lv::render_steps(steps);
+    let mut info = RunInfo { executed: 0, cut_short: false, tolerated: 0 };
+    match run_script(ctx, "C14", "seq", &script, &text, &mut info, false) {
+        Outcome::Fail { sig, detail, .. } => Some((sig, detail)),
+        _ => None,
+    }
+}
+
 fn seq_outcome(ctx: &Ctx, bytes: &[u8]) -> Outcome {
+    if skip_shrink_candidate(ctx, bytes) {
+        return Outcome::Pass;
+    }
     let mut c = Choices::new(bytes);
     let damp = damp_for(ctx, "C14");
     let (steps, stats) = lv::gen_case(&mut c, &damp);
     if steps.is_empty() {
         return Outcome::Discard;
     }
-    run_steps(ctx, &steps, Some(&stats))
+    match run_steps(ctx, &steps, Some(&stats)) {
+        Outcome::Fail { sig, detail, render } if !ctx.strict => {
+            // minimise structurally, here and now; the replay file carries the minimal script
+            remember_failure(bytes);
+            let min = minimise(&steps, &sig, |cand| failure_of(ctx, cand).map(|f| f.0));
+            match failure_of(ctx, &min) {
+                Some((s2, d2)) if s2 == sig => Outcome::fail(sig, d2, json!({"script": lv::render_steps(&min), "generated_script": render["script"]})),
+                _ => Outcome::fail(sig, detail, render),
+            }
+        }
+        other => other,
+    }
 }
 
 impl Prop for C14 {
@@ -141,5 +181,12 @@ impl Prop for C14 {
     }
     fn shards(&self, _tier: Tier) -> usize {
         16
+    }
+    fn hang_is_violation(&self) -> bool {
+        // sequences are finite and acyclic: a hang or abort is not "reporting an error"
+        true
+    }
+    fn case_timeout_s(&self) -> u64 {
+        60
     }
 }
